@@ -179,13 +179,16 @@ def gen_exchanges(tape, phase, n, faults_on, same_pool):
                 if resp.truncate_at is not None:
                     resp.truncate_at += delta
                 resp.desc['huge_header'] = True
-        if same_pool and resp.status == 200 and resp.truncate_at is None and tape.chance(1, 3, 'same_url'):
+        if same_pool is not None and resp.status == 200 and resp.truncate_at is None and tape.chance(1, 2, 'same_url'):
             path = '/same/%d' % tape.draw(2, 'same.idx')
             fixed = same_pool.get(path)
-            if fixed is None:
+            if fixed is None and m == 'HEAD':
+                path = '/p%d/e%d' % (phase, i)
+            elif fixed is None:
                 same_pool[path] = resp
             else:
                 resp = fixed
+                m = 'GET'       # the stored response was generated for a GET
         else:
             path = '/p%d/e%d' % (phase, i)
         body = None
@@ -430,6 +433,8 @@ def run(tape, prop, tier):
             if resp.surplus:
                 r.probes['surplus'] += 1
                 r.faults['surplus'] += 1
+                if any(o.get('ok') for o in (ex.get('outcomes') or [])):
+                    r.probes['overrun_branch'] += 1
             if resp.truncate_at is not None:
                 r.probes['truncated'] += 1
                 r.faults['truncate.' + resp.truncate_kind] += 1
